@@ -43,9 +43,10 @@ def cu2quOk (cfg : Cfg) (before : Option Masters) : Bool :=
 def uniformCustom (cfg : Cfg) : Bool :=
   [true, false].all (fun pre => (customPhase cfg pre).all Option.isSome || ((customPhase cfg pre).filterMap id).isEmpty)
 
-/-- the iteration orders handed to the model mention every glyph name of the family (they are orders of the SET of all names) -/
+/-- the iteration orders handed to the model mention every glyph name of the family that is not skipped (they are orders
+    of the SET of all names; the skipped ones are gone after the first run) -/
 def ordersCover (cfg : Cfg) (src : Masters) : Bool :=
-  cfg.orders.all (fun o => (allNames src).all (fun n => o.contains n))
+  cfg.orders.all (fun o => (allNames src).all (fun n => cfg.skip.contains n || o.contains n))
 
 /-- `.notdef` is handled the same way in all masters: the empty fallback, or every source has its own (and it is not skipped) -/
 def notdefJoint (cfg : Cfg) (src : Masters) : Bool :=
@@ -69,5 +70,16 @@ def signStable (src : Masters) : Bool :=
 def signsEqualNonzero (src : Masters) : Bool :=
   (allNames src).all (fun n => (glyphsNamed src n).all (fun a => (glyphsNamed src n).all (fun b =>
     (a.comps.zip b.comps).all (fun p => sgn p.1.t.det == sgn p.2.t.det && sgn p.1.t.det != 0))))
+
+/-- cu2qu's contract as far as `C09_pipeline_inst_partial` needs it: alike glyph sets in, alike glyph sets out -/
+def cu2quAlike (cfg : Cfg) (before : Option Masters) : Bool :=
+  match before, cfg.cu2qu with
+  | some p, some q => !alike p || alike q
+  | _, _ => true
+
+/-- the configurations `C09_pipeline_inst_partial` covers: no skipExportGlyphs, no custom filters, and (TrueType) no
+    flattenComponents — then the only interpolatable filter run works on the pristine source layers -/
+def instPlain (cfg : Cfg) : Bool :=
+  cfg.skip.isEmpty && cfg.custom.all Option.isNone && (!cfg.ttf || !cfg.flatten)
 
 end Ufo2ft.C09
